@@ -83,7 +83,10 @@ def generate(seed: int, tier: str, phase: str) -> Dict[str, Any]:
         avoid.append("nn_silu")      # (nn.SiLU passes inplace=..., which U.gelu does not take)
     plan["replace"] = replace
     plan["progs"] = [{"pseed": r.randrange(1 << 30),
-                      "opts": {"vocab": "unitscale", "depth": [1, r.choice([4, 8, 12])], "avoid": list(avoid)}}
+                      "opts": {"vocab": "unitscale", "depth": [1, r.choice([4, 8, 12])], "avoid": list(avoid)},
+                      # a replacement whose key is a torch function (no allow_in_graph involved)
+                      # is a per-call argument: other modules of the process do not pass it
+                      "use_fn_replace": r.random() < 0.6}
                      for _ in range(nmods)]
     ops: List[Dict[str, Any]] = []
     for i in range(nmods):
@@ -151,7 +154,9 @@ def execute(plan: Dict[str, Any]) -> Dict[str, Any]:
                 spec = proggen.generate(random.Random(p["pseed"]), p["opts"])
                 orig = programs.ProgModule(spec)
                 rep = {h: t for h, t in plan["replace"].items()
-                       if h in spec.get("helpers_used", []) or (h == "F.silu" and any(st["op"] == "silu" or st.get("fn") == "my_act2" for st in spec["prog"]))}
+                       if h in spec.get("helpers_used", []) or (
+                           h == "F.silu" and p.get("use_fn_replace", True)
+                           and any(st["op"] == "silu" or st.get("fn") == "my_act2" for st in spec["prog"]))}
                 worlds.append({"spec": spec, "orig": orig, "snap": tw.state_snapshot(orig), "replace": rep,
                                "inputs": [programs.make_inputs(spec, 70 + k) for k in range(3)],
                                "ref": programs.Reference(spec, us=True, replace=rep), "mods": [],
